@@ -34,7 +34,7 @@ def decl(rng, flag, base, idx, legacy=False):
             if rng.random() < 0.25 and members:
                 val = rng.choice(members)[1]  # duplicate value
                 text = f"{mname} = {val}"
-        elif not legacy:
+        elif True:   # (expressions over earlier members were left out for the legacy parser until repair 110)
             prev, pv = rng.choice(members)
             form = rng.random()
             if flag:
